@@ -17,6 +17,7 @@ from __future__ import annotations
 import errno
 import io
 import os
+import re
 import selectors
 import socket
 import socketserver
@@ -93,6 +94,9 @@ if t.TYPE_CHECKING:
     from cryptography.x509 import Certificate
 
 
+_chunk_len_re = re.compile(r"[0-9A-Fa-f]+")
+
+
 class DechunkedInput(io.RawIOBase):
     """An input stream that handles Transfer-Encoding 'chunked'"""
 
@@ -106,8 +110,12 @@ class DechunkedInput(io.RawIOBase):
 
     def read_chunk_len(self) -> int:
         try:
-            line = self._rfile.readline().decode("latin1")
-            _len = int(line.strip(), 16)
+            line = self._rfile.readline().decode("latin1").strip()
+
+            if not _chunk_len_re.fullmatch(line):
+                raise ValueError(line)
+
+            _len = int(line, 16)
         except ValueError as e:
             raise OSError("Invalid chunk header") from e
         if _len < 0:
